@@ -317,11 +317,28 @@ Proof.
   rewrite H, IH. now rewrite app_assoc.
 Qed.
 
+Lemma gen_term_get_metavariables t : GenMM.term_get_metavariables t = term_mvs t.
+Proof.
+  induction t as [x|c args IH] using term_ind2; [reflexivity|]. cbn [GenMM.term_get_metavariables term_mvs].
+  induction args as [|a args IHa]; [reflexivity|]. inversion IH as [|? ? Ha Hr]; subst. cbn [flat_map]. now rewrite Ha, (IHa Hr).
+Qed.
+
+Lemma gen_terms_mvs ts : flat_map (fun v_term => GenMM.term_get_metavariables v_term) ts = flat_map term_mvs ts.
+Proof. apply flat_map_ext. intros a. apply gen_term_get_metavariables. Qed.
+
+Lemma gen_get_metavariables s : GenMM.get_metavariables s = stmt_mvs s.
+Proof.
+  induction s as [cs|vs|vs|l ty v|l ts|l ts|l ts pf|ss IH] using stmt_ind2; cbn [GenMM.get_metavariables stmt_mvs];
+    try reflexivity; try apply gen_terms_mvs.
+  - unfold mv_name. apply map_id.
+  - induction ss as [|a ss IHs]; [reflexivity|]. inversion IH as [|? ? Ha Hr]; subst. cbn [flat_map]. now rewrite Ha, (IHs Hr).
+Qed.
+
 Definition CF (l : list stmt) : list string :=
   flat_map (fun x => match stmt_consts x with Some c => (builtins ++ c ++ [])%list | None => [] end) l.
 
 Lemma ofold_consts : forall l c0 m0,
-  ofold_left (fun '(c, m) x => obind (statements_get_constants [x]) (fun t => Some ((c ++ t)%list, (m ++ get_metavariables x)%list)))
+  ofold_left (fun '(c, m) x => obind (statements_get_constants [x]) (fun t => Some ((c ++ t)%list, (m ++ GenMM.get_metavariables x)%list)))
              l (c0, m0)
   = match stmts_consts l with Some _ => Some ((c0 ++ CF l)%list, (m0 ++ flat_map stmt_mvs l)%list) | None => None end.
 Proof.
@@ -329,7 +346,7 @@ Proof.
   - cbn. now rewrite !app_nil_r.
   - cbn [ofold_left stmts_consts]. unfold statements_get_constants at 1. cbn [stmts_consts].
     destruct (stmt_consts x) as [c|] eqn:Ex; [|reflexivity]. cbn [obind]. rewrite IH.
-    destruct (stmts_consts l) as [cs|]; [|reflexivity]. unfold CF, get_metavariables. cbn [flat_map]. rewrite Ex.
+    destruct (stmts_consts l) as [cs|]; [|reflexivity]. unfold CF. rewrite gen_get_metavariables. cbn [flat_map]. rewrite Ex.
     now rewrite <- !app_assoc.
 Qed.
 
